@@ -329,7 +329,7 @@ impl Check for C13Spelling {
 
 /// every alias of every function x `per` generated argument tuples
 pub fn run_aliases(ctx: &mut Ctx) {
-    let per: u64 = ctx.tier.pick(20, 400);
+    let per: u64 = ctx.tier.pick(40, 600);
     let pairs: Vec<(&'static str, &'static str)> = FTAB.iter().filter(|d| !IMPURE.contains(&d.name)).flat_map(|d| d.aliases.iter().map(move |a| (d.name, *a))).collect();
     let seed = ctx.seed;
     let total = pairs.len() as u64 * per;
@@ -489,7 +489,7 @@ impl Check for C13SelRef {
     fn strategy(&self, _t: Tier) -> BoxedStrategy<CaseSelRef> {
         vec(any::<u32>(), 0..300)
             .prop_map(|tape| {
-                let mut g = Gen::new(&tape, GenCfg { ill: 1, bindings: false, bind_bias: true, exclude: vec!["exec", "trigger", "now", "env", "parse_selection"], ..GenCfg::default() });
+                let mut g = Gen::new(&tape, GenCfg { ill: 1, bindings: true, bind_bias: true, exclude: vec!["exec", "trigger", "now", "env", "parse_selection"], ..GenCfg::default() });
                 let env = Env::top();
                 let xk = *g.tape.pick(&[Num, Str, Bool, ArrNum, ArrStr, ObjNum, Int]);
                 let x = g.expr(xk, 2, &env);
